@@ -644,36 +644,46 @@ impl Kind {
     }
 }
 
+/// The iterator handed to the from_iter-style constructors: exact (a Vec), or with a size hint whose
+/// lower bound is below the real count (`filter`), which is just as legal.
+fn feed<T: 'static>(v: Vec<T>, inexact: bool) -> Box<dyn Iterator<Item = T>> {
+    if inexact {
+        Box::new(v.into_iter().filter(|_| true))
+    } else {
+        Box::new(v.into_iter())
+    }
+}
+
 /// Build the subject. `prefill` are ids of children already created in the world (for the
 /// from_iter style constructors). Returns None (and records a violation) if the constructor panics.
-pub fn build(kind: Kind, prefill: &[u32]) -> Option<Box<dyn Subject>> {
+pub fn build(kind: Kind, prefill: &[u32], inexact: bool) -> Option<Box<dyn Subject>> {
     let r = catch_unwind(AssertUnwindSafe(|| -> Box<dyn Subject> {
         match kind {
             Kind::Fub(n) => Box::new(SFub(in_crate(|| FuturesUnorderedBounded::new(n)))),
             Kind::FubIter(_) => {
                 let it: Vec<F> = prefill.iter().map(|&i| F::new(i)).collect();
-                Box::new(SFub(in_crate(|| it.into_iter().collect())))
+                Box::new(SFub({ let it = feed(it, inexact); in_crate(|| it.collect()) }))
             }
             Kind::FuNew => Box::new(SFu(in_crate(FuturesUnordered::new))),
             Kind::FuCap(n) => Box::new(SFu(in_crate(|| FuturesUnordered::with_capacity(n)))),
             Kind::FuIter(_) => {
                 let it: Vec<F> = prefill.iter().map(|&i| F::new(i)).collect();
-                Box::new(SFu(in_crate(|| it.into_iter().collect())))
+                Box::new(SFu({ let it = feed(it, inexact); in_crate(|| it.collect()) }))
             }
             Kind::Fob(n) => Box::new(SFob(in_crate(|| FuturesOrderedBounded::new(n)), n)),
             Kind::FobIter(n) => {
                 let it: Vec<F> = prefill.iter().map(|&i| F::new(i)).collect();
-                Box::new(SFob(in_crate(|| it.into_iter().collect()), n))
+                Box::new(SFob({ let it = feed(it, inexact); in_crate(|| it.collect()) }, n))
             }
             Kind::FoNew => Box::new(SFo(in_crate(FuturesOrdered::new))),
             Kind::FoCap(n) => Box::new(SFo(in_crate(|| FuturesOrdered::with_capacity(n)))),
             Kind::FoIter(_) => {
                 let it: Vec<F> = prefill.iter().map(|&i| F::new(i)).collect();
-                Box::new(SFo(in_crate(|| it.into_iter().collect())))
+                Box::new(SFo({ let it = feed(it, inexact); in_crate(|| it.collect()) }))
             }
             Kind::Mb(_) => {
                 let it: Vec<ScriptStream> = prefill.iter().map(|&i| ScriptStream::new(i)).collect();
-                Box::new(SMb(in_crate(|| it.into_iter().collect())))
+                Box::new(SMb({ let it = feed(it, inexact); in_crate(|| it.collect()) }))
             }
             Kind::Mu(_) => {
                 let mut m = in_crate(MergeUnbounded::new);
@@ -685,7 +695,7 @@ pub fn build(kind: Kind, prefill: &[u32]) -> Option<Box<dyn Subject>> {
             }
             Kind::MuIter(_) => {
                 let it: Vec<Pin<Box<ScriptStream>>> = prefill.iter().map(|&i| Box::pin(ScriptStream::new(i))).collect();
-                Box::new(SMu(in_crate(|| it.into_iter().collect())))
+                Box::new(SMu({ let it = feed(it, inexact); in_crate(|| it.collect()) }))
             }
             Kind::Bu(n) => Box::new(SBu(in_crate(|| Upstream::<F>::new().buffered_unordered(n)))),
             Kind::Bo(n) => Box::new(SBo(in_crate(|| Upstream::<F>::new().buffered_ordered(n)))),
@@ -698,34 +708,34 @@ pub fn build(kind: Kind, prefill: &[u32]) -> Option<Box<dyn Subject>> {
             })),
             Kind::Ja(_) => {
                 let it: Vec<F> = prefill.iter().map(|&i| F::new(i)).collect();
-                Box::new(SJa(in_crate(|| join_all(it))))
+                Box::new(SJa({ let it = feed(it, inexact); in_crate(|| join_all(it)) }))
             }
             Kind::Tja(_) => {
                 let it: Vec<TF> = prefill.iter().map(|&i| TF::new(i)).collect();
-                Box::new(STja(in_crate(|| try_join_all(it))))
+                Box::new(STja({ let it = feed(it, inexact); in_crate(|| try_join_all(it)) }))
             }
             Kind::FubZ(n) => Box::new(SFubZ(in_crate(|| FuturesUnorderedBounded::new(n)))),
             Kind::FuZ(n) => Box::new(SFuZ(in_crate(|| FuturesUnordered::with_capacity(n)))),
             Kind::JaZ(_) => {
                 let it: Vec<ZFut> = prefill.iter().map(|&i| ZFut::new(i)).collect();
-                Box::new(SJaZ(in_crate(|| join_all(it))))
+                Box::new(SJaZ({ let it = feed(it, inexact); in_crate(|| join_all(it)) }))
             }
             Kind::JaN(_) => {
                 let it: Vec<NF> = prefill.iter().map(|&i| NF::new(i)).collect();
-                Box::new(SJaN(in_crate(|| join_all(it))))
+                Box::new(SJaN({ let it = feed(it, inexact); in_crate(|| join_all(it)) }))
             }
             Kind::TjaN(_) => {
                 let it: Vec<NTF> = prefill.iter().map(|&i| NTF::new(i)).collect();
-                Box::new(STjaN(in_crate(|| try_join_all(it))))
+                Box::new(STjaN({ let it = feed(it, inexact); in_crate(|| try_join_all(it)) }))
             }
             Kind::FobN(n) => Box::new(SFobN(in_crate(|| FuturesOrderedBounded::new(n)), n)),
             Kind::JaP(_) => {
                 let it: Vec<PF> = prefill.iter().map(|&i| PF::new(i)).collect();
-                Box::new(SJaP(in_crate(|| join_all(it))))
+                Box::new(SJaP({ let it = feed(it, inexact); in_crate(|| join_all(it)) }))
             }
             Kind::TjaP(_) => {
                 let it: Vec<PTF> = prefill.iter().map(|&i| PTF::new(i)).collect();
-                Box::new(STjaP(in_crate(|| try_join_all(it))))
+                Box::new(STjaP({ let it = feed(it, inexact); in_crate(|| try_join_all(it)) }))
             }
         }
     }));
